@@ -1,7 +1,8 @@
 // ovgen generates a Go build overlay for the go-storethehash tree at -repo:
 //
-//   - every non-test .go file that imports "os" or "sync" gets those imports
-//     aliased to the shim packages verifshim/vos and verifshim/vsync (the file
+//   - every non-test .go file that imports "os", "sync" or "path/filepath" gets
+//     those imports aliased to the shim packages verifshim/vos, verifshim/vsync
+//     and verifshim/vfilepath (the file
 //     body is untouched, line numbers are preserved);
 //   - every `for k, v := range m` over a map with an ordered key type is
 //     rewritten to iterate vhook.SortedKeys(m) (deterministic order owned by
@@ -52,6 +53,9 @@ type report struct {
 	RewrittenRange  []string `json:"rewritten_map_ranges"`
 	UnownedRange    []string `json:"unowned_map_ranges"`
 	TypeErrors      int      `json:"type_errors_ignored"`
+	// UnownedImports: imports through which the code under test could reach
+	// the file system, the clock or other processes without passing the shims
+	UnownedImports []string `json:"unowned_environment_imports"`
 }
 
 type loader struct {
@@ -312,10 +316,20 @@ func main() {
 						repl = modPath + "/verifshim/vos"
 					case `"sync"`:
 						repl = modPath + "/verifshim/vsync"
+					case `"path/filepath"`:
+						repl = modPath + "/verifshim/vfilepath"
+					case `"io/ioutil"`, `"os/exec"`, `"syscall"`, `"golang.org/x/sys/unix"`, `"io/fs"`, `"net"`, `"net/http"`, `"unsafe"`, `"sync/atomic"`:
+						// sync/atomic is listed for information only: atomics are
+						// not scheduling points of engine A (none in the pinned tree)
+						rep.UnownedImports = append(rep.UnownedImports, fi.rel+": "+strings.Trim(is.Path.Value, `"`))
+						continue
 					default:
 						continue
 					}
 					name := strings.Trim(is.Path.Value, `"`)
+					if i := strings.LastIndex(name, "/"); i >= 0 {
+						name = name[i+1:]
+					}
 					if is.Name != nil {
 						name = is.Name.Name
 					}
